@@ -204,8 +204,8 @@ def run_backend_direct(case):
 def subs(tier):
     q = tier == "quick"
     return [
-        Sub("sampler-distribution", run_dist, strategy=dist_case(big=not q), examples=70 if q else 1200),
-        Sub("bunched", run_dist, strategy=bunched_case(big=not q), examples=40 if q else 600),
-        Sub("edit-between-reads", run_reuse, strategy=reuse_case(), examples=50 if q else 800),
+        Sub("sampler-distribution", run_dist, strategy=dist_case(big=not q), examples=70 if q else 600),
+        Sub("bunched", run_dist, strategy=bunched_case(big=not q), examples=40 if q else 1500),
+        Sub("edit-between-reads", run_reuse, strategy=reuse_case(), examples=50 if q else 600),
         Sub("backend-direct", run_backend_direct, strategy=dist_case(big=False), examples=30 if q else 400),
     ]
